@@ -280,3 +280,26 @@ pub open spec fn dot_float_spec(s: Seq<char>) -> (LiteralKind, int) {
         (LiteralKind::Float { base: Base::Decimal, empty_exponent: !ex.1 }, f + 1 + ex.0)
     } else { (LiteralKind::Float { base: Base::Decimal, empty_exponent: false }, f) }
 }
+
+// ---- stage C: where a quoted string / a (nested) block comment ends -----------------------------
+pub open spec fn lift(o: Option<int>, k: int) -> Option<int> { match o { Some(n) => Some(n + k), None => None } }
+/// number of characters up to and including the closing quote `q`, scanning from just after the
+/// opening quote; `\\` and `\q` are escapes; None if the input ends first (unterminated)
+pub open spec fn str_end(s: Seq<char>, q: char) -> Option<int>
+    decreases s.len()
+{
+    if s.len() == 0 { None }
+    else if s[0] == q { Some(1int) }
+    else if s[0] == '\\' && s.len() >= 2 && (s[1] == '\\' || s[1] == q) { lift(str_end(s.skip(2), q), 2) }
+    else { lift(str_end(s.skip(1), q), 1) }
+}
+/// number of characters up to and including the `*/` that closes the comment, scanning from just
+/// after its `/*` at nesting depth `depth` (block comments nest); None if the input ends first
+pub open spec fn bc_end(s: Seq<char>, depth: int) -> Option<int>
+    decreases s.len()
+{
+    if s.len() == 0 { None }
+    else if s[0] == '/' && s.len() >= 2 && s[1] == '*' { lift(bc_end(s.skip(2), depth + 1), 2) }
+    else if s[0] == '*' && s.len() >= 2 && s[1] == '/' { if depth <= 1 { Some(2int) } else { lift(bc_end(s.skip(2), depth - 1), 2) } }
+    else { lift(bc_end(s.skip(1), depth), 1) }
+}
